@@ -1,4 +1,5 @@
 import Proofs.SqlFixedPoint
+import Proofs.SqlReloadRoutes
 import Proofs.SqlParserTotal
 
 /-!
@@ -184,12 +185,91 @@ theorem fixed_point (u : UC) (it : Item) (h : it.AsciiTypes) :
     (canonItem u it).stmt u = it.stmt u ∧ canonItem u (canonItem u it) = canonItem u it :=
   ⟨canon_stmt u it h, canon_idem u it h⟩
 
-/- The model-level form of the fixed point
-     `printDb (reload (reload mm)) = printDb (reload mm)`  with  `reload = toMM ∘ build ∘ parse ∘ lex ∘ printDb`
-   (and `reload_same`: classes, identifiers, associations, rows and LINKS of `reload mm` equal those of `mm`)
-   needs the recomputation of links from key values (`populate_connections`), which is the subject of C03; it is
-   validated on every run by the property predicate of harness/prop_C01.py (dump(original) = dump(reloaded) incl.
-   link pairs, text₂ = text₃ for every route). -/
+/-! ### model level: reload of everything but links -/
+
+/-- the six orders in which the three separately written parts can be concatenated (or fed one after the other) -/
+def serializeOrders (u : UC) (m : MM) : List (List Item) :=
+  [(m.serializeSchema u) ++ (m.serializeInstances) ++ (m.serializeUniqueIdentifiers u),
+   (m.serializeSchema u) ++ (m.serializeUniqueIdentifiers u) ++ (m.serializeInstances),
+   (m.serializeInstances) ++ (m.serializeSchema u) ++ (m.serializeUniqueIdentifiers u),
+   (m.serializeInstances) ++ (m.serializeUniqueIdentifiers u) ++ (m.serializeSchema u),
+   (m.serializeUniqueIdentifiers u) ++ (m.serializeSchema u) ++ (m.serializeInstances),
+   (m.serializeUniqueIdentifiers u) ++ (m.serializeInstances) ++ (m.serializeSchema u)]
+
+def persistOrders (u : UC) (m : MM) : List (List Item) :=
+  [(m.persistSchema u) ++ (m.persistInstances) ++ (m.persistUniqueIdentifiers),
+   (m.persistSchema u) ++ (m.persistUniqueIdentifiers) ++ (m.persistInstances),
+   (m.persistInstances) ++ (m.persistSchema u) ++ (m.persistUniqueIdentifiers),
+   (m.persistInstances) ++ (m.persistUniqueIdentifiers) ++ (m.persistSchema u),
+   (m.persistUniqueIdentifiers) ++ (m.persistSchema u) ++ (m.persistInstances),
+   (m.persistUniqueIdentifiers) ++ (m.persistInstances) ++ (m.persistSchema u)]
+
+/-- RELOAD (all but links), `serialize_database`: for every well-formed, closed metamodel (class names distinct after
+    upper-casing, core attribute types, identifier names distinct per class, association ends naming classes of the model
+    with key lists of equal length and existing target keys, rows as long as the attribute list) the written text is
+    accepted, builds, and the built metamodel — as the writers see it — is `m.reloaded`: the same classes (in sorted
+    order) with the same attributes (type names upper-cased), the same identifiers, the same rows in order with equal
+    values (an unset value is the null value of its type; a REAL value is its six-decimal numeral), and the same
+    associations (rel id, kinds, keys, multiplicity, conditionality, phrases; in the order written) -/
+theorem reload_same_partial (u : UC) (m : MM) (hw : m.WF u) (hm : m.Closed u) (text : Text)
+    (hp : printItems u (m.serializeDatabase u) = some text) :
+    ∃ stmts bs, classify u text = .accepted stmts ∧ build u stmts = .ok bs ∧ bs.toMM u = m.reloaded u m.assocsByIdKind :=
+  reload_serializeDatabase u m hw hm text hp
+
+/-- … `persist_database` (identifiers interleaved after each class, associations sorted by rel id only) -/
+theorem reload_same_partial_persist (u : UC) (m : MM) (hw : m.WF u) (hm : m.Closed u) (text : Text)
+    (hp : printItems u (m.persistDatabase u) = some text) :
+    ∃ stmts bs, classify u text = .accepted stmts ∧ build u stmts = .ok bs ∧ bs.toMM u = m.reloaded u m.assocsById :=
+  reload_persistDatabase u m hw hm text hp
+
+/-- … the three parts of `serialize_schema / serialize_instances / serialize_unique_identifiers` and of the
+    `persist_*` writers in ANY of the six orders: the statements build to the same reloaded metamodel -/
+theorem reload_same_partial_parts (u : UC) (m : MM) (hm : m.Closed u) (items : List Item) (stmts : List Stmt)
+    (hs : itemsStmts u items = some stmts) :
+    (items ∈ serializeOrders u m → ∃ bs, build u stmts = .ok bs ∧ bs.toMM u = m.reloaded u m.assocsByIdKind) ∧
+    (items ∈ persistOrders u m → ∃ bs, build u stmts = .ok bs ∧ bs.toMM u = m.reloaded u m.assocsById) := by
+  constructor
+  · intro h
+    simp only [serializeOrders, List.mem_cons, List.mem_nil_iff, or_false] at h
+    rcases h with rfl | rfl | rfl | rfl | rfl | rfl
+    · exact reload_of_presents u m hm _ _ _ stmts (presents_serialize_SIX u m hm) hs
+    · exact reload_of_presents u m hm _ _ _ stmts (presents_serialize_SXI u m hm) hs
+    · exact reload_of_presents u m hm _ _ _ stmts (presents_serialize_ISX u m hm) hs
+    · exact reload_of_presents u m hm _ _ _ stmts (presents_serialize_IXS u m hm) hs
+    · exact reload_of_presents u m hm _ _ _ stmts (presents_serialize_XSI u m hm) hs
+    · exact reload_of_presents u m hm _ _ _ stmts (presents_serialize_XIS u m hm) hs
+  · intro h
+    simp only [persistOrders, List.mem_cons, List.mem_nil_iff, or_false] at h
+    rcases h with rfl | rfl | rfl | rfl | rfl | rfl
+    · exact reload_of_presents u m hm _ _ _ stmts (presents_persist_SIX u m hm) hs
+    · exact reload_of_presents u m hm _ _ _ stmts (presents_persist_SXI u m hm) hs
+    · exact reload_of_presents u m hm _ _ _ stmts (presents_persist_ISX u m hm) hs
+    · exact reload_of_presents u m hm _ _ _ stmts (presents_persist_IXS u m hm) hs
+    · exact reload_of_presents u m hm _ _ _ stmts (presents_persist_XSI u m hm) hs
+    · exact reload_of_presents u m hm _ _ _ stmts (presents_persist_XIS u m hm) hs
+
+/-- the reloaded metamodel is a fixed point of reloading as far as classes, identifiers and associations go:
+    canonicalising a class twice is canonicalising it once (type names ASCII) -/
+theorem reloaded_class_idem (u : UC) (c : ClassM) (h : ∀ a ∈ c.attrs, AsciiText a.2) :
+    canonClass u (canonClass u c) = canonClass u c := by
+  simp only [canonClass, upAttrs, List.map_map, ClassM.mk.injEq, true_and]
+  refine ⟨?_, ?_⟩
+  · apply List.map_congr_left
+    intro a ha
+    simp only [Function.comp, upper_idem u a.2 (h a ha)]
+  · apply List.map_congr_left
+    intro r _
+    exact canonVals_idem u c.attrs r h
+
+/- Full statement, NOT proved here:
+     theorem reload_same (u m) (hw : m.WF u) (hm : m.Closed u) (hk : KeysResolve m links) … :
+       the metamodel built from the text of any route has the classes / identifiers / associations / rows of
+       `m.reloaded` (proved above) AND the same links as `m`
+   The link part is the recomputation of links from key values in `populate_connections`; it is C03's `build_links`
+   (Props/C03.lean) and is not repeated here.  With it, the model-level fixed point
+   `printDb (reload (reload m)) = printDb (reload m)` follows from `reload_same_partial` and `reloaded_class_idem`
+   (referential values are then read through the links).  Both are validated on every run by the property predicate
+   of harness/prop_C01.py (dump(original) = dump(reloaded) incl. link pairs in both directions, text₂ = text₃, every route). -/
 
 /-! non-vacuity: concrete instances -/
 
@@ -231,5 +311,16 @@ example (u : UC) : (Item.assoc "R1".toList ⟨false, true, "TABLE".toList, ["nex
 
 example : (Item.inst "TABLE".toList [("Id".toList, "unique_id".toList)] [none]).AsciiTypes := by
   intro a ha; simp only [List.mem_singleton] at ha; subst ha; unfold AsciiText; decide
+
+/-- a closed metamodel: one class with an identifier, an unset row and a reflexive association over its id -/
+def mEx : MM :=
+  ⟨[⟨"A".toList, [("Id".toList, "unique_id".toList)], [("I1".toList, ["Id".toList])], [[none]]⟩],
+   [⟨"R1".toList, ⟨false, true, "A".toList, ["Id".toList], []⟩, ⟨false, true, "A".toList, ["Id".toList], "x".toList⟩⟩]⟩
+
+example : mEx.Closed UC.ascii := by
+  refine ⟨by decide, by decide, by decide, ?_, by decide⟩
+  intro a ha
+  simp only [mEx, List.mem_singleton] at ha; subst ha
+  exact ⟨⟨_, List.mem_singleton.mpr rfl, rfl⟩, rfl, _, List.mem_singleton.mpr rfl, rfl, by decide⟩
 
 end PyxProps.C01
